@@ -2373,6 +2373,39 @@ func c11R16(c *Ctx) {
 	for _, t := range tds {
 		g.AddInstr(t, "processor.Teardown")
 	}
+	// … or a same-package helper that tears the processor down on every one of its paths
+	for _, b := range fn.Blocks {
+		for _, in := range b.Instrs {
+			ci, ok := in.(ssa.CallInstruction)
+			if !ok {
+				continue
+			}
+			h := ci.Common().StaticCallee()
+			if h == nil || h.Pkg != fn.Pkg || len(h.Blocks) == 0 {
+				continue
+			}
+			hg := kit.NewGates()
+			for _, hb := range h.Blocks {
+				for _, hin := range hb.Instrs {
+					if hc, ok := hin.(ssa.CallInstruction); ok && hc.Common().IsInvoke() && fieldNamed(hc.Common().Value, "processor") && hc.Common().Method.Name() == "Teardown" {
+						hg.AddInstr(hc, "")
+					}
+				}
+			}
+			if hg.Empty() {
+				continue
+			}
+			all := true
+			for _, ret := range kit.Returns(h) {
+				if pass, _ := kit.MustPass(ret, hg); !pass {
+					all = false
+				}
+			}
+			if all {
+				g.AddInstr(ci, "helper that tears the processor down")
+			}
+		}
+	}
 	ok := !g.Empty()
 	for _, e := range kit.FailEdges(opens[0]) {
 		if pass, _ := kit.AllExitsFromEdge(e, false, kit.ExitSpec{Gates: g}); !pass {
